@@ -43,7 +43,7 @@ META = {
                  'doCache=False factories; CacheFactory.clear(); tryGet(); per-instance _SO_writeLock (never taken '
                  'while the cache lock is held, so it cannot take part in a lock cycle with it)',
                  'threading.Lock, sqlite3 (executed, not verified)'],
-    'assumptions': ['the partial theorems are proved for programs without create; programs with create but without a concurrent expireAll / get of the created id are covered by the schedule-controlled replay only (sampling), not by a theorem',
+    'assumptions': ['SafeProgs excludes create and expireAll in the same configuration even when they are in one thread sequentially (safe, but outside the theorem; covered by the replay only)',
                     'cullFraction >= 1 (the configuration constant is 2; 0 makes range() raise ValueError)',
                     'the attribute load `self.cache` and the dict operation on it form one action (true for CPython 3.12: '
                     'no eval-breaker check between LOAD_ATTR and the subscript)'],
@@ -388,12 +388,30 @@ def fmt_map(m):
     return ','.join('%d:%d' % kv for kv in m) if m else '-'
 
 
+def cached_ids(init):
+    return (list(init['strong']) + list(init['weak'])) if init['caches'] else []
+
+
+def pinned_ids(init):
+    """row ids whose cached instance the environment keeps a reference to (default: all of them)"""
+    ids = cached_ids(init)
+    pins = init.get('pins')
+    return ids if pins is None else [i for i in ids if i in pins]
+
+
+def pin_objs(init):
+    """model object numbers of the pinned instances (objects are numbered in strong+weak order)"""
+    ids = cached_ids(init)
+    return [ids.index(i) for i in pinned_ids(init)]
+
+
 def model_line(init, progs, sched):
-    return ('c=%d freq=%d frac=%d cc=%d off=%d strong=%s weak=%s db=%s fresh=%d progs=%s sched=%s'
+    return ('c=%d freq=%d frac=%d cc=%d off=%d strong=%s weak=%s db=%s fresh=%d pins=%s progs=%s sched=%s'
             % (1 if init['caches'] else 0, init['freq'], init['frac'], init['cc'], init['off'],
                fmt_map([(i, k) for k, i in enumerate(init['strong'])]),
                fmt_map([(i, len(init['strong']) + k) for k, i in enumerate(init['weak'])]),
                ','.join(map(str, init['db'])) or '-', len(init['strong']) + len(init['weak']),
+               ','.join(map(str, pin_objs(init))) or '-',
                progs_str(progs), ','.join(map(str, sched)) or '-'))
 
 
@@ -417,15 +435,18 @@ def run_real(init, progs, sched):
             conn.query('INSERT INTO %s (id, v) VALUES (%d, %d)' % (cls.sqlmeta.table, i, i))
         pinned = []
         if init['caches']:
-            for i in list(init['strong']) + list(init['weak']):
-                pinned.append(cls.get(i))
+            objs = [cls.get(i) for i in cached_ids(init)]
             cf = dict.__getitem__(cs.caches, cls.__name__)
             nst = len(init['strong'])
             # the setup gets may themselves have culled (small cullFrequency): lay the maps out explicitly
-            cf._strong.d = dict((i, pinned[k]) for k, i in enumerate(init['strong']))
-            cf._weak.d = dict((i, weakref.ref(pinned[nst + k])) for k, i in enumerate(init['weak']))
+            cf._strong.d = dict((i, objs[k]) for k, i in enumerate(init['strong']))
+            cf._weak.d = dict((i, weakref.ref(objs[nst + k])) for k, i in enumerate(init['weak']))
             cf._cc = init['cc']
             cf.cullOffset = init['off']
+            # the environment keeps only the pinned instances: an unpinned one in expiredCache is dead at once
+            # (CPython frees an instance with its last strong reference), one in cache dies when it leaves it
+            pinned = [objs[k] for k in pin_objs(init)]
+            del objs
         outs = [[] for _ in progs]
 
         def do(op):
@@ -530,10 +551,10 @@ def canon_real(r):
             'off': str(r['off']), 'tr': ','.join(r['trace']) or '-'}
 
 
-def canon_model(ans, npinned):
+def canon_model(ans, pins):
     f = dict(w.split('=', 1) for w in ans.split(' '))
     num = Numbering()
-    for o in range(npinned):
+    for o in pins:
         num(o)
 
     def ren_out(x):
@@ -545,7 +566,8 @@ def canon_model(ans, npinned):
     def ren_map(m):
         if m == '-':
             return m
-        return ','.join('%s:%s' % (e.split(':')[0], num(int(e.split(':')[1]))) for e in m.split(','))
+        return ','.join('%s:%s' % (e.split(':')[0], 'dead' if e.split(':')[1] == 'dead' else num(int(e.split(':')[1])))
+                        for e in m.split(','))
     outs = '/'.join(('-' if t == '-' else ','.join(ren_out(x) for x in t.split(','))) for t in f['outs'].split('/'))
     return {'outs': outs, 'lock': f['lock'], 'strong': ren_map(f['strong']), 'weak': ren_map(f['weak']),
             'unfinished': f['unfinished'], 'cc': f['cc'], 'off': f['off'], 'tr': f['tr'], 'stale': f['stale']}
@@ -556,7 +578,11 @@ WARM = dict(caches=True, strong=[1, 2], weak=[3], db=[1, 2, 3, 4], freq=100, fra
 COLD = dict(caches=False, strong=[], weak=[], db=[1, 2, 3, 4], freq=100, frac=2, cc=0, off=0)
 # cullCount > cullFrequency: the next get()/created() culls
 CULLY = dict(caches=True, strong=[1, 2, 4], weak=[3], db=[1, 2, 3, 4], freq=0, frac=2, cc=1, off=1)
-INITS = (('warm', WARM), ('cold', COLD), ('cully', CULLY))
+# only row 1's instance is referenced by the environment: row 3's weak reference is dead from the start, row 2's
+# instance dies the moment it leaves `cache` (expireAll's swap, cull, expire)
+WARMU = dict(WARM, pins=[1])
+CULLYU = dict(CULLY, pins=[4])
+INITS = (('warm', WARM), ('cold', COLD), ('cully', CULLY), ('warmu', WARMU))
 
 
 def init_tag(init):
@@ -564,9 +590,10 @@ def init_tag(init):
     for name, i in INITS:
         if init == i:
             return name
-    return 'c%d.s%s.w%s.d%s.f%d.r%d.n%d.o%d' % (
+    return 'c%d.s%s.w%s.d%s.f%d.r%d.n%d.o%d.p%s' % (
         1 if init['caches'] else 0, '_'.join(map(str, init['strong'])) or '-', '_'.join(map(str, init['weak'])) or '-',
-        '_'.join(map(str, init['db'])) or '-', init['freq'], init['frac'], init['cc'], init['off'])
+        '_'.join(map(str, init['db'])) or '-', init['freq'], init['frac'], init['cc'], init['off'],
+        '_'.join(map(str, pinned_ids(init))) or '-')
 
 
 def _threads_with(progs, pred):
@@ -605,8 +632,7 @@ def oracle(init, progs, r):
 
     # every reference the environment or a thread holds at the end: (row id, object, who)
     refs = []
-    pinned_ids = (list(init['strong']) + list(init['weak'])) if init['caches'] else []
-    for i, o in zip(pinned_ids, r['pinned']):
+    for i, o in zip(pinned_ids(init), r['pinned']):
         refs.append((i, o, 'the environment (cached before the run)'))
     for t, t_outs in enumerate(r['outs']):
         for k, out in enumerate(t_outs):
@@ -762,7 +788,7 @@ def op_kind(init, op, created):
         if i in init['strong']:
             return 'g-hit'
         if i in init['weak']:
-            return 'g-weak'
+            return 'g-weak' if i in pinned_ids(init) else 'g-dead'
         if i in created:
             return 'g-new'
         return 'g-miss' if i in init['db'] else 'g-nf'
@@ -791,7 +817,9 @@ def load_corpus():
 
 def random_case(rng):
     """3 threads, 1-3 ops each; creates use globally fresh ids; sometimes another thread gets a created id"""
-    init = rng.choice([WARM, COLD, CULLY])
+    init = rng.choice([WARM, COLD, CULLY, WARMU, CULLYU])
+    if init['caches'] and rng.random() < 0.5:
+        init = dict(init, pins=[i for i in cached_ids(init) if rng.random() < 0.5])
     fresh = itertools.chain([7, 8], itertools.count(10))     # 9 is the row that never exists
     progs = []
     for _ in range(3):
@@ -854,7 +882,7 @@ class Runner:
             if key not in self.reported:
                 self.reported.add(key)
                 ctx.oracle_fail(key, what, case)
-        self.pending.append((case, cr, line, (len(init['strong']) + len(init['weak'])) if init['caches'] else 0))
+        self.pending.append((case, cr, line, pin_objs(init)))
         if len(self.pending) >= self.BATCH:
             self.flush()
         return r, fails
@@ -911,6 +939,8 @@ def run(ctx):
             for ib, op_b in enumerate(PAIR_OPS):
                 if not thorough and ib < ia:
                     continue
+                if tag == 'warmu' and not thorough and not ({op_a, op_b} & {('A',), ('C',), ('g', 3), ('x', 1)}):
+                    continue          # the unreferenced instances only matter to the ops that move / probe them
                 progs = [[op_a], [op_b]]
                 if op_a[0] == 'c' and op_b[0] == 'c':
                     progs = [[op_a], [('c', 8)]]          # two creates never share an id
@@ -943,13 +973,15 @@ META['level_text'] = (
     'any number of threads, any programs over get/create/expire/expireAll/cull, any cull parameters. FULL: C09_conc_inv '
     '(lock held exactly by the thread between a miss and finishPut / inside expire, expireAll, cull; cache keys unique; '
     'every key the holder is about to read/del is present, so no KeyError and no release of a free lock), '
-    'C09_lock_free_at_quiescence, C09_progress (no deadlock), C09_cullcount_benign. PARTIAL (decidable hypothesis '
-    'NoCreateProgs: no thread runs create, the only lock-free writer): C09_one_object_per_id, C09_same_object, '
+    'C09_lock_free_at_quiescence, C09_progress (no deadlock), C09_cullcount_benign. PARTIAL under SafeProgs = no create '
+    'anywhere, OR (no expireAll anywhere AND created ids fresh: named by no other thread, created once, not yet a row) '
+    '- decidable on a program list (SafeL, C09_safe_of_list): C09_one_object_per_id, C09_same_object, '
     'C09_same_object_as_initial, C09_referenced_reachable, C09_no_exception_but_notfound, with per-key steps of the '
-    'expireAll iteration and of cull. FALSE-witnesses (decide on concrete schedules, replayed on the real cache.py every '
-    'run): C09_referenced_reachable_full_FALSE (created vs the cache={} swap), C09_no_exception_but_notfound_full_FALSE '
-    '(created during the expireAll iteration), C09_same_object_full_FALSE (create vs get of the same row). The model is '
-    'tied to the code by running the same schedules on real threads (outcomes, final maps/lock, step-exact access trace).')
+    'expireAll iteration and of cull (create vs cull is proved safe). FALSE-witnesses (decide on concrete schedules, '
+    'replayed on the real cache.py every run): C09_*_full_FALSE (three) and tightness of the hypothesis: '
+    'C09_referenced_reachable_needs_noExpireAll_FALSE, C09_no_exception_needs_noExpireAll_FALSE, '
+    'C09_same_object_needs_fresh_FALSE, C09_no_exception_needs_new_row_FALSE. The model is tied to the code by running '
+    'the same schedules on real threads (outcomes, final maps/lock, step-exact access trace).')
 META['level_note'] = ('Trusted: Lean kernel; the hand-written interleaving model Model/Conc.lean (compared step by step with '
                       'the real cache.py/main.py on every explored schedule); the harness scheduler/instrumentation; '
                       'CPython atomicity of one builtin-dict operation.')
